@@ -10,6 +10,7 @@ SPEC = {
             "ciphertext layout current|legacy, bit alterations stratified by ciphertext region). "
             "non-trivial (predicates/*, cycle/decrypt-*, cycle/extract) = the formula contains a negation or a repeated label AND the assignment lacks a label the formula mentions or makes the verdict false; "
             "non-trivial (cycle/bitflip-*) = altered ciphertext handed to a key that decrypts the unaltered one; marshal/golden/soup = a completed round trip; "
+            "non-trivial (whitebox/share*) = a non-empty wire set that does not satisfy the formula; "
             "distinct by FNV-64 of (sub-check, canonical formula, assignment number, layout, message length) resp. (ciphertext hash, altered bits)",
     "assumptions": COMMON_ASSUME + [
         "the reference evaluator zz_verif/ref/abe states the scheme's semantics (NNF by De Morgan; positive leaf = present and equal, negated leaf = present and different); two independently written evaluators are cross-checked on every case",
@@ -20,13 +21,14 @@ SPEC = {
 }
 
 MANIFEST = {
-    "technique": "property-based testing (rapid): recursive-grammar generator of policy formulas and of their textual forms, exhaustive enumeration of all 256 attribute assignments per formula against an independent reference evaluator (zz_verif/ref/abe), full Setup/Encrypt/KeyGen/Decrypt cycles on a stratified choice of assignments in both ciphertext layouts, single-bit alteration metamorphic relation (exhaustive over one ciphertext per layout in the thorough tier), marshal and print/parse round trips, golden-file cross-check",
+    "technique": "property-based testing (rapid): recursive-grammar generator of policy formulas and of their textual forms, exhaustive enumeration of all 256 attribute assignments per formula against an independent reference evaluator (zz_verif/ref/abe), full Setup/Encrypt/KeyGen/Decrypt cycles on a stratified choice of assignments in both ciphertext layouts, single-bit alteration metamorphic relation (exhaustive over one ciphertext per layout in the thorough tier), marshal and print/parse round trips, golden-file cross-check; white-box binary: linear-algebra test (Gaussian elimination mod r over repeated sharings) that a wire set determines the shared secret iff it satisfies the formula",
     "text": "Generated-input search. For every generated formula (leaf | and | or | not, <= 6 leaves, depth <= 4, repeated labels and nested negation frequent, random redundant parentheses and blanks) "
             "Policy.FromString must accept it and Policy.Satisfaction must equal the reference verdict on each of the 256 assignments over {a,b,c,d} x {absent,0,1,2}; extra attributes must not matter; "
             "String() must be in the policy language (reference parser), equivalent to the formula, and FromString(String()) equivalent again. Full cycles (Setup once per process from a deterministic reader): "
             "Attributes.CouldDecrypt, 'Decrypt succeeds and returns exactly the message' and the policy extracted from the ciphertext must all agree with the reference on a satisfying and a non-satisfying "
             "(preferably near-miss) assignment per formula, for message lengths {0,1,31,32,33,1000}, with original and unmarshalled public / system / attribute keys, in the current layout and in the legacy layout "
             "(transcoded by the harness with the known Boneh-Katz seed; transcoder validated against testdata/ciphertext_v137). No same-length alteration of a ciphertext may decrypt to a different message; panics on single-bit "
-            "alterations are reported, other panics only counted (they belong to C10). Exploration is the right level: the formula x assignment x randomness space is unbounded while the oracle is exact per case.",
+            "alterations are reported, other panics only counted (they belong to C10). White-box (internal/tkn): Formula.share is run n+3 times per generated monotone formula, with and without the Boneh-Katz gate of insertAnd; "
+            "for every subset of input wires a fixed linear combination of its shares may reproduce the secret in all runs iff the subset satisfies the formula, and five concrete unauthorised keys must not open the envelope by running decapsulate on a reduced header. Exploration is the right level: the formula x assignment x randomness space is unbounded while the oracle is exact per case.",
     "note": "trusts the hand-written reference evaluator/parser (cross-checked: two evaluators, renderer vs parser, repository policies.json cases) and x/crypto/blake2b; assignments are exhaustive only over the 4x3 alphabet; full cycles sample a few assignments per formula; an altered ciphertext that an UNauthorised key decrypts to the original message would only be counted (class + note), since the property text does not forbid it; the native fuzz target FuzzC20PolicyFromString exists but is not run by the driver; never establishes absence",
 }
